@@ -90,3 +90,21 @@ package parser
 //@   loop 5 invariant row-typed: colsok(undoRow.Columns)
 //@   at return: assert values-come-back-in-the-kind-of-their-column: logsok(result.Logs)
 //@   may_panic
+
+// ... and the encoder writes every row of every image into the image it came from.
+//@ func ConvertToProto
+//@   prop C08 C01
+//@   local protolog *SQLUndoLog
+//@   local undolog undo.SQLUndoLog
+//@   requires intreeLog != nil
+//@   let l := some(int, "l")
+//@   macro samecount(pb, img) := img != nil ==> pb != nil && len(pb.Rows) == len(img.Rows)
+//@   macro counted(logs) := 0 <= l && l < len(logs) && l < len(intreeLog.Logs) ==> logs[l] != nil && samecount(logs[l].BeforeImage, intreeLog.Logs[l].BeforeImage) && samecount(logs[l].AfterImage, intreeLog.Logs[l].AfterImage)
+//@   macro inlog() := len(protoLog.Logs) == rangeindex1 + 1 && rangeindex1 + 1 < len(intreeLog.Logs) && undolog.BeforeImage == intreeLog.Logs[rangeindex1 + 1].BeforeImage && undolog.AfterImage == intreeLog.Logs[rangeindex1 + 1].AfterImage && protolog != nil && counted(protoLog.Logs)
+//@   loop 1 invariant every-log-so-far-with-all-its-rows: rangeindex1 >= -1 && protoLog != nil && len(protoLog.Logs) == rangeindex1 + 1 && rangeindex1 < len(intreeLog.Logs) && counted(protoLog.Logs)
+//@   loop 2 invariant rows-so-far: rangeindex2 >= -1 && protoLog != nil && inlog() && undolog.BeforeImage != nil && protolog.BeforeImage != nil && len(protolog.BeforeImage.Rows) == rangeindex2 + 1 && rangeindex2 < len(undolog.BeforeImage.Rows)
+//@   loop 3 invariant rows-so-far: rangeindex2 >= -1 && protoLog != nil && inlog() && undolog.BeforeImage != nil && protolog.BeforeImage != nil && len(protolog.BeforeImage.Rows) == rangeindex2 + 1 && rangeindex2 + 1 < len(undolog.BeforeImage.Rows)
+//@   loop 4 invariant rows-so-far: rangeindex4 >= -1 && protoLog != nil && inlog() && undolog.AfterImage != nil && protolog.AfterImage != nil && len(protolog.AfterImage.Rows) == rangeindex4 + 1 && rangeindex4 < len(undolog.AfterImage.Rows) && samecount(protolog.BeforeImage, undolog.BeforeImage)
+//@   loop 5 invariant rows-so-far: rangeindex4 >= -1 && protoLog != nil && inlog() && undolog.AfterImage != nil && protolog.AfterImage != nil && len(protolog.AfterImage.Rows) == rangeindex4 + 1 && rangeindex4 + 1 < len(undolog.AfterImage.Rows) && samecount(protolog.BeforeImage, undolog.BeforeImage)
+//@   at return: assert every-row-is-written-into-its-own-image: len(result.Logs) == len(intreeLog.Logs) && counted(result.Logs)
+//@   may_panic
